@@ -87,17 +87,23 @@ func setBag(s *slip.Scope, obj *flavors.Instance, value, path slip.Object, depth
 	if x == nil {
 		obj.Any = v
 	} else {
-		setAt(obj, x, v)
+		setAt(s, obj, x, v, depth)
 	}
 }
 
-// setAt sets v at every location x matches. When x matches more than one
+// setAt sets v at every location x matches and fails if x names a single
+// location that can not be set. When x matches more than one
 // location and v is a map or a slice each location after the first gets a
 // copy of its own, otherwise a later change below one of the locations would
 // show up below all of them.
-func setAt(obj *flavors.Instance, x jp.Expr, v any) {
+func setAt(s *slip.Scope, obj *flavors.Instance, x jp.Expr, v any, depth int) {
 	x.MustSet(obj.Any, v)
 	if x.Normal() {
+		// A member name applied to an array or an index applied to a map is
+		// skipped without a word by MustSet.
+		if !x.Has(obj.Any) {
+			slip.ErrorPanic(s, depth, "can not set a value at '%s', the path does not fit the data", x)
+		}
 		return
 	}
 	switch v.(type) {
